@@ -113,6 +113,9 @@ pub enum SOp {
     Burst { n: usize, ctx: usize, other_ctx: usize },
     Foreign { ctx: usize },
     SpawnGen { name: usize, ctx: usize, gen: GScript, duplex: bool },
+    /// several spawns of one (context, name) appended back to back, before the serve loop has
+    /// answered the first
+    SpawnBurst { name: usize, ctx: usize, gens: Vec<GScript> },
     Send { name: usize, ctx: usize, content: usize },
     Define { name: usize, ctx: usize, cmd: CScript },
     Call { name: usize, ctx: usize, arg: usize },
@@ -177,10 +180,13 @@ pub fn handler_script(name: &str, s: &HScript, other_ctx: &str, after_id: Option
         let input = if !s.rich {
             format!("\"e{}\"", k)
         } else {
-            match k % 3 {
+            // (k + number of appends) so that every input kind occurs at every position
+            match (k + s.appends.len()) % 4 {
                 0 => format!("\"e{}\"", k),
                 1 => format!("{{a: {}, b: \"r\"}}", k),
-                _ => format!("0x[0{} ff 00]", k),
+                2 => format!("0x[0{} ff 00]", k),
+                // a byte stream that arrives in several short chunks
+                _ => format!("[c{}a c{}bb c{}ccc] | each {{|x| $x}} | to text", k, k, k),
             }
         };
         let mut line = format!("    {} | .append {}.x{}", input, name, k);
@@ -273,7 +279,12 @@ pub fn cmd_script(name: &str, c: &CScript) -> String {
     out.push_str("    let leak = (($env.leak? | default 0) + 1)\n");
     out.push_str("    $env.leak = $leak\n");
     if c.explicit_append {
-        out.push_str(&format!("    \"side\" | .append {}.side --meta {{note: \"x\"}}\n", name));
+        if c.outputs.len() % 2 == 0 {
+            // the streaming `.append`: a byte stream that arrives in several short chunks
+            out.push_str(&format!("    [s1a s1bb s1ccc] | each {{|x| $x}} | to text | .append {}.side --meta {{note: \"x\"}}\n", name));
+        } else {
+            out.push_str(&format!("    \"side\" | .append {}.side --meta {{note: \"x\"}}\n", name));
+        }
     }
     let mut items: Vec<String> = c.outputs.iter().enumerate().map(|(i, r)| ret_literal(r, i).0).collect();
     if c.cat_probe {
@@ -686,28 +697,15 @@ impl Run {
                 self.quiesce(chooser, vec![])?;
             }
             SOp::SpawnGen { name, ctx, gen, duplex } => {
-                let c = self.ctx(*ctx);
-                let n = GNAMES[name % GNAMES.len()];
-                let hash = match gen_expr(gen) {
-                    Some(e) => Some(self.cas(&e)?),
-                    None => None,
-                };
-                let f = self.op_append(Frame::builder(format!("{}.spawn", n), c).maybe_hash(hash).meta(serde_json::json!({"duplex": duplex})).build())?;
-                let same_running = self.gens.iter().any(|g| g.name == n && g.ctx == c && g.expect_accept != Some(false));
-                let other_ctx_running = self.gens.iter().any(|g| g.name == n && g.ctx != c && g.expect_accept != Some(false));
-                let expect_accept = if *gen == GScript::MissingHash || same_running {
-                    Some(false)
-                } else if other_ctx_running {
-                    None
-                } else {
-                    Some(true)
-                };
-                self.gens.push(GenRec { id: f.id, name: n.to_string(), ctx: c, gen: gen.clone(), duplex: *duplex, expect_accept });
-                self.w.probe(match expect_accept {
-                    Some(true) => "gen:spawned",
-                    Some(false) => "gen:refused",
-                    None => "gen:same-name-other-context",
-                });
+                self.spawn_gen(i, *name, *ctx, gen, *duplex)?;
+                self.quiesce(chooser, vec![])?;
+            }
+            SOp::SpawnBurst { name, ctx, gens } => {
+                for (k, gen) in gens.iter().enumerate() {
+                    let duplex = matches!(gen, GScript::Echo | GScript::EchoFirst(_));
+                    self.spawn_gen(i + k, *name, *ctx, gen, duplex)?;
+                }
+                self.w.probe("gen:spawn-burst");
                 self.quiesce(chooser, vec![])?;
             }
             SOp::Send { name, ctx, content } => {
@@ -1006,10 +1004,11 @@ impl Run {
                     let content: Vec<u8> = if !inst.script.rich {
                         format!("e{}", k).into_bytes()
                     } else {
-                        match k % 3 {
+                        match (k + inst.script.appends.len()) % 4 {
                             0 => format!("e{}", k).into_bytes(),
                             1 => format!("{{\"a\":{},\"b\":\"r\"}}", k).into_bytes(),
-                            _ => vec![k as u8, 0xff, 0x00],
+                            2 => vec![k as u8, 0xff, 0x00],
+                            _ => format!("c{}a\nc{}bb\nc{}ccc\n", k, k, k).into_bytes(),
                         }
                     };
                     want.push((format!("{}.x{}", name, k), t, content, false));
@@ -1291,6 +1290,35 @@ impl Run {
                 }
             }
         }
+        Ok(())
+    }
+
+    /// Appends one `<name>.spawn` and records what the generator service must do with it.
+    fn spawn_gen(&mut self, i: usize, name: usize, ctx: usize, gen: &GScript, duplex: bool) -> R<()> {
+        let c = self.ctx(ctx);
+        let n = GNAMES[name % GNAMES.len()];
+        let hash = match gen_expr(gen) {
+            Some(e) => Some(self.cas(&e)?),
+            None => None,
+        };
+        // every other spawn carries an annotation next to the option the service knows
+        let meta = if i % 2 == 0 { serde_json::json!({"duplex": duplex}) } else { serde_json::json!({"duplex": duplex, "origin": "sim"}) };
+        let f = self.op_append(Frame::builder(format!("{}.spawn", n), c).maybe_hash(hash).meta(meta).build())?;
+        let same_running = self.gens.iter().any(|g| g.name == n && g.ctx == c && g.expect_accept != Some(false));
+        let other_ctx_running = self.gens.iter().any(|g| g.name == n && g.ctx != c && g.expect_accept != Some(false));
+        let expect_accept = if *gen == GScript::MissingHash || same_running {
+            Some(false)
+        } else if other_ctx_running {
+            None
+        } else {
+            Some(true)
+        };
+        self.gens.push(GenRec { id: f.id, name: n.to_string(), ctx: c, gen: gen.clone(), duplex, expect_accept });
+        self.w.probe(match expect_accept {
+            Some(true) => "gen:spawned",
+            Some(false) => "gen:refused",
+            None => "gen:same-name-other-context",
+        });
         Ok(())
     }
 
@@ -1714,6 +1742,19 @@ impl Run {
             if def.cmd.explicit_append && sides != 1 && errors == 0 {
                 return violation("cmd/explicit-append", format!("{}: the script's .append ran {} times", desc, sides));
             }
+            if def.cmd.explicit_append {
+                let want_side: &[u8] = if def.cmd.outputs.len() % 2 == 0 { b"s1a\ns1bb\ns1ccc\n" } else { b"side" };
+                for f in mine.iter().filter(|f| f.topic == format!("{}.side", call.name)) {
+                    let got = self.content(f);
+                    if got.as_deref() != Some(want_side) {
+                        return violation(
+                            "cas/script-append-content",
+                            format!("{}: the script's .append wrote {:?} but the content behind the frame's hash is {:?}", desc, String::from_utf8_lossy(want_side), got.map(|b| String::from_utf8_lossy(&b).to_string())),
+                        );
+                    }
+                    self.w.probe("cmd:append-content-checked");
+                }
+            }
             let mut want: Vec<serde_json::Value> = def.cmd.outputs.iter().enumerate().map(|(i, r)| ret_literal(r, i).1).collect();
             if def.cmd.cat_probe {
                 want.insert(0, serde_json::json!(call.ctx.to_string()));
@@ -1869,6 +1910,10 @@ fn gen_hscript(rng: &mut Rng, prop: &str) -> HScript {
 }
 
 pub fn generate(seed: u64, prop: &str, thorough: bool) -> Plan {
+    // C10 looks at every entry point that writes content: half of its service-layer runs use the
+    // command workload (streaming `.append`, command outputs), half the handler workload
+    let plan_prop = prop;
+    let prop = if plan_prop == "C10" && seed & 1 == 0 { "C19" } else { plan_prop };
     let mut rng = Rng::new(seed);
     let mut ops = Vec::new();
     let nctx = rng.weighted(&[30, 50, 20]);
@@ -1942,6 +1987,24 @@ pub fn generate(seed: u64, prop: &str, thorough: bool) -> Plan {
             let op = match op {
                 SOp::SpawnGen { name, ctx, gen: GScript::Echo, .. } => SOp::SpawnGen { name, ctx, gen: GScript::Echo, duplex: true },
                 SOp::SpawnGen { name, ctx, gen: GScript::EchoFirst(k), .. } => SOp::SpawnGen { name, ctx, gen: GScript::EchoFirst(k), duplex: true },
+                o => o,
+            };
+            let op = match op {
+                SOp::SpawnGen { name, ctx, gen, .. } if (prop == "C17" || prop == "C18") && rng.chance(22) => {
+                    let mut gens = vec![gen];
+                    for _ in 0..rng.range(1, 2) {
+                        gens.push(match rng.weighted(&[30, 30, 25, 15]) {
+                            0 => GScript::Single("again".to_string()),
+                            1 => GScript::Stream(rng.range(1, 3)),
+                            2 => GScript::MissingHash,
+                            _ => GScript::Echo,
+                        });
+                    }
+                    if rng.chance(30) {
+                        gens.reverse();
+                    }
+                    SOp::SpawnBurst { name, ctx, gens }
+                }
                 o => o,
             };
             // after a valid definition, sometimes an invalid redefinition of the same command
@@ -2037,7 +2100,7 @@ pub fn generate(seed: u64, prop: &str, thorough: bool) -> Plan {
         _ => "starve-engine",
     };
     Plan {
-        prop: prop.to_string(),
+        prop: plan_prop.to_string(),
         seed,
         policy: policy.to_string(),
         ops,
